@@ -9,6 +9,7 @@ totality on all byte strings, and the decode theorems on the bytes of a syncfram
 specification (Spec/Info/Ac3.lean: `Ac3.build`, `Eac3.build`).
 -/
 import MutagenModel.Proofs.Info.Ac3Decode
+import MutagenModel.Proofs.Info.Eac3Decode
 set_option linter.unusedVariables false
 namespace Mutagen.C05
 open Mutagen Mutagen.Info Mutagen.Info.Ac3
@@ -71,6 +72,17 @@ theorem eac3_info_decodes_except_length (h : Spec.Ac3.Eac3) (ok : h.OK) :
                                  eac3 := true } :=
   parse_eac3 h ok
 
+/-- C05 for E-AC-3, `length` included: for EVERY header without mixing metadata the specification allows (as in
+`eac3_info_decodes_except_length`) followed by any payload, `AC3Info` reports exactly the encoded rate, data rate and
+channel count, codec "ec-3", and as `length` its documented guess `8 · (bytes behind the header) / data rate` — PROVIDED
+the header is one on which mutagen's skipping of convsync / blkid / frmsizecod is the standard's (`SkipAgrees`, decidable):
+a dependent substream (strmtyp 1), or an AC-3-convertible one (strmtyp 2) with fewer than six blocks.  Independent
+substreams (strmtyp 0) and strmtyp 2 with six blocks are the deviating ones (`eac3_convsync_misread`). -/
+theorem eac3_info_decodes_partial (h : Spec.Ac3.Eac3) (ok : h.OK) (hyp : SkipAgrees h) : parse h.build = .ok h.expected :=
+  parse_eac3_full h ok hyp
+
+example : SkipAgrees ⟨1, 0, 383, 0, 0, 3, 2, 0, 16, 27, none, 27, none, some 0xFFFF, none, 0, 0, 0, none, []⟩ := by decide
+
 /-- the fixed E-AC-3 fields are read back from a specification-built header, for all values -/
 theorem eac3_fields_decode (f : Bytes) (r : Aac.R) (h : Spec.Ac3.Eac3) (ok : h.OK) (rest : List Bool)
     (ha : Aac.At f r (h.fieldBits ++ rest)) :
@@ -78,7 +90,21 @@ theorem eac3_fields_decode (f : Bytes) (r : Aac.R) (h : Spec.Ac3.Eac3) (ok : h.O
       ⟨r.start, r.pos + 29⟩) :=
   (enhancedFields_at f r h ok rest ha).1
 
-/-! ### deviations from the standard in the skipping of bsi() (they move only the start of the `length` guess) -/
+/-! ### how far the layouts of Spec/Info/Ac3.lean are cross-checked
+
+`Ac3.build` and `Eac3.build` were written from the standard; harness/gen/headers_more.py was written independently from
+the same standard.  harness/info_tie_a.py compares the two builders' bytes for every headers_more case (header of the
+first frame, byte-padded): all 1914 thorough-tier cases (334 quick) are EQUAL.  What these cases exercise:
+* AC-3: all 8 acmod with their mix-level fields, lfeon, both programme groups for acmod 0, all 8 combinations of the
+  compre / langcode / audprodie groups, bsid 0..8, all fscod × frmsizecod.  They never set timecod1e / timecod2e / addbsie:
+  the ORDER timecod1e, timecod1, timecod2e, timecod2 (on which `ac3_timecode_order_misread` rests) is NOT cross-checked.
+* E-AC-3: strmtyp 0 and 2 with fewer than six and with six blocks (415 / 182 / 204 / 67 cases), with and without
+  informational metadata, compre, all acmod.  So the placement of convsync (strmtyp 0, fewer than six blocks) and of
+  blkid / frmsizecod (strmtyp 2; frmsizecod without blkid for six blocks) — on which `eac3_convsync_misread` and the
+  hypothesis `SkipAgrees` rest — IS cross-checked by two independent readings.  Not exercised: strmtyp 1 / chanmap,
+  audprodie = 1 inside the informational metadata, addbsi.
+
+### deviations from the standard in the skipping of bsi() (they move only the start of the `length` guess) -/
 
 /-- a 48 kHz 192 kbit/s 2/0 AC-3 header with timecod1 = 0x2000 and 40 payload bytes -/
 def ac3Timecode : Spec.Ac3.Ac3 :=
